@@ -9,6 +9,22 @@
 #include <sstream>
 #include <iostream>
 #include <cstdint>
+#include <csignal>
+#include <unistd.h>
+
+// Per-case watchdog: a case that does not finish within the limit is reported as "<id> ABORT timeout" and the process
+// exits (the driver restarts the harness after the culprit).  Decides "loops forever" without wall-clock tuning per check.
+static char g_case_id[64] = "?";
+static void hc_on_alarm(int) {
+    char buf[96]; int n = snprintf(buf, sizeof buf, "%s ABORT timeout watchdog\n", g_case_id);
+    if (write(1, buf, n) < 0) {}
+    _exit(0);
+}
+static inline void case_begin(const std::string &id, unsigned seconds = 20) {
+    strncpy(g_case_id, id.c_str(), sizeof g_case_id - 1); g_case_id[sizeof g_case_id - 1] = 0;
+    signal(SIGALRM, hc_on_alarm); alarm(seconds);
+}
+static inline void case_end() { alarm(0); }
 
 static inline std::vector<std::string> split_ws(const std::string &s) {
     std::vector<std::string> out; std::istringstream is(s); std::string t;
